@@ -527,6 +527,9 @@ func (s *State) evalBuiltin(node *ast.Builtin) object.Object {
 		if rt == object.ERROR && t != token.LOG && t != token.CATCH { // log can log (and thus catch) errors.
 			return val
 		}
+		if rt == object.RETURN { // break/continue/return are statements, not values to operate on.
+			return s.Errorf("unexpected control type %v as argument of %s", val.(object.ReturnValue).ControlType, node.Literal())
+		}
 	}
 	switch t {
 	case token.CATCH:
@@ -847,8 +850,12 @@ func (s *State) evalExpressions(exps []ast.Node) ([]object.Object, *object.Error
 	result := object.MakeObjectSlice(len(exps)) // not that this one can ever be huge but, for consistency.
 	for _, e := range exps {
 		evaluated := s.evalInternal(e)
-		if rt := evaluated.Type(); rt == object.ERROR {
+		switch evaluated.Type() { //nolint:exhaustive // errors and control objects stop here, the rest are values.
+		case object.ERROR:
 			oerr := evaluated.(object.Error)
+			return nil, &oerr
+		case object.RETURN: // break/continue/return are statements, not values: they must not end up in arrays or arguments.
+			oerr := s.Errorf("unexpected control type %v in an expression list", evaluated.(object.ReturnValue).ControlType)
 			return nil, &oerr
 		}
 		result = append(result, object.CopyRegister(evaluated))
